@@ -20,7 +20,7 @@ for pid in ids:
         "replay_cmd_template": "/verif/bin/zv replay {path}",
         "engine": "zv",
         "level_claimed": {"category": p.get("level", "proof"), "text": p["claim"], "design_ref": p.get("design_ref", "DESIGN.md section 8/" + pid)},
-        "level_note": p.get("level_note", "trusted: go/ssa translation, zv VC generator, SMT solvers, assumed dependency contracts (contracts/deps.spec); sequential contracts only (no interleavings)"),
+        "level_note": p.get("level_note", "assumed: " + ("; ".join(p.get("assumptions", [])) or "-") + ". not covered by any contract: " + ("; ".join(p.get("unverified", [])) or "-") + ". trusted: go/ssa translation, the zv VC generator and encodings, z3/cvc5 (no certificates), assumed dependency contracts (contracts/deps.spec); every contract is sequential (no interleavings, no crash instants); clauses listed as bounded are decided only for fixed (resolution, width) instances"),
         "technique": p.get("technique", "contract-based deductive verification: //@ contracts on the real functions, VCs generated over go/ssa, discharged by z3/cvc5"),
     })
 m = {
